@@ -22,7 +22,7 @@ func refSmallOrderPredicate(b []byte) (small bool, class string) {
 }
 
 func jobC09(c *rt.Ctx) {
-	c.Require("pred/torsion", "pred/undecodable", "pred/not-small", "e2e/key-small/default-reject", "e2e/R-small/default-reject", "e2e/mixed-order-key/accept", "e2e/mixed-order-R/accept", "scan/torsion", "scan/not-small", "scan/undecodable")
+	c.Require("pred/torsion", "pred/undecodable", "pred/not-small", "e2e/key-small/default-reject", "e2e/R-small/default-reject", "e2e/next-to-malformed", "e2e/mixed-order-key/accept", "e2e/mixed-order-R/accept", "scan/torsion", "scan/not-small", "scan/undecodable")
 	checkPred := func(space string, b []byte) {
 		exp, class := refSmallOrderPredicate(b)
 		got := isSmallOrderVartime(b)
@@ -165,6 +165,51 @@ func jobC09(c *rt.Ctx) {
 						d["variant"], d["pos"], d["n"], d["valid"] = vs.String(), sh.pos, sh.n, fmt.Sprint(valid)
 						c.Violation(fmt.Sprintf("C09 batch %s not refused exactly", name),
 							fmt.Sprintf("VerifyBatch default mode with %s (%s) at position %d of %d reported %v", name, tr.name, sh.pos, sh.n, valid), d)
+					}
+				}
+				// the same entry next to a MALFORMED entry of the same chunk (the pre-check loops of the
+				// batch path abort at the malformed one; the small-order entry before / after it must still
+				// be screened, whichever loop aborted)
+				type comp struct {
+					n, small, mal int
+					kind          string
+				}
+				var comps []comp
+				for _, kind := range []string{"key31", "sig63", "msg63"} {
+					if kind == "msg63" && vs.v != ref.Ph {
+						continue
+					}
+					comps = append(comps, comp{4, 0, 3, kind}, comp{4, 2, 1, kind}, comp{8, 5, 6, kind}, comp{72, 66, 70, kind}, comp{72, 69, 65, kind})
+				}
+				for _, cp := range comps {
+					entries := append([]triple{}, fillers(vs, cp.n)...)
+					entries[cp.small] = t
+					m := entries[cp.mal]
+					switch cp.kind {
+					case "key31":
+						m.key = append([]byte{}, m.key[:31]...)
+					case "sig63":
+						m.sig = append([]byte{}, m.sig[:63]...)
+					case "msg63":
+						m.msg = append([]byte{}, m.msg[:63]...)
+					}
+					entries[cp.mal] = m
+					_, valid, err, bpv := implBatch(entries, vs, false, rt.NewRng(c.Seed, "c09c"))
+					c.Step(1)
+					c.Class("e2e/next-to-malformed")
+					bad := bpv != nil || err != nil || len(valid) != cp.n
+					if !bad {
+						for i, v := range valid {
+							if v != (i != cp.small && i != cp.mal) {
+								bad = true
+							}
+						}
+					}
+					if bad {
+						d := hexd(t)
+						d["variant"], d["n"], d["small_order_pos"], d["malformed_pos"], d["malformed_kind"], d["valid"] = vs.String(), cp.n, cp.small, cp.mal, cp.kind, fmt.Sprint(valid)
+						c.Violation(fmt.Sprintf("C09 batch %s next to malformed %s", name, cp.kind),
+							fmt.Sprintf("VerifyBatch default mode of %d entries with %s (%s) at %d and a %s entry at %d reported %v", cp.n, name, tr.name, cp.small, cp.kind, cp.mal, valid), d)
 					}
 				}
 			}
